@@ -761,6 +761,12 @@ func (x *Exec) typeAssert(st *State, fr *Frame, b *ssa.BasicBlock, idx int, in *
 	if toIface {
 		ifc := in.AssertedType.Underlying().(*types.Interface)
 		var oks []T
+		// the message types implementing the asserted interface are candidates even if no value of theirs was seen yet
+		if n, ok := in.AssertedType.(*types.Named); ok && n.Obj().Pkg() != nil && strings.Contains(n.Obj().Pkg().Path(), "MinterTeam/mhub2") {
+			for _, c := range x.e.implementers(in.AssertedType) {
+				x.e.dynConFor(c)
+			}
+		}
 		for _, c := range x.e.dynCandidates(iv) {
 			if types.Implements(c, ifc) {
 				dc := x.e.dynConFor(c)
@@ -768,6 +774,11 @@ func (x *Exec) typeAssert(st *State, fr *Frame, b *ssa.BasicBlock, idx int, in *
 			}
 		}
 		okT := Or(oks...)
+		if len(oks) == 0 {
+			// no known message type implements the interface: the outcome of the assertion is unknown, not false
+			x.e.note("type assertion to " + typeString(in.AssertedType) + " on a value of unknown dynamic type: outcome left open")
+			okT = x.e.fresh("assertok", SBool)
+		}
 		if in.CommaOk {
 			cont(st, fr, &TupleV{Vs: []Val{iv, okT}})
 			return true
@@ -822,6 +833,23 @@ func (x *Exec) rangeInit(st *State, fr *Frame, in *ssa.Range) Val {
 }
 
 func (x *Exec) rangeNext(st *State, fr *Frame, in *ssa.Next) Val {
+	if cc := x.commute; cc != nil && in == cc.next {
+		// commutation analysis: this iteration visits the given key
+		it := x.val(st, fr, in.Iter).(*OpaqueV)
+		mv := it.Data["map"].(*MapV)
+		tt := in.Type().(*types.Tuple)
+		cur := st.Heap[mv.Obj].(T)
+		kT, vT := tt.At(1).Type(), tt.At(2).Type()
+		kterm := cc.kv[0].(T)
+		var kv, vv Val = x.tryZero(st, kT), x.tryZero(st, vT)
+		if !isInvalid(kT) {
+			kv = x.e.reflect(st, kterm, kT)
+		}
+		if !isInvalid(vT) {
+			vv = x.e.reflect(st, T{S: fmt.Sprintf("(select (val_%s %s) %s)", cur.So, cur.S, kterm.S), So: x.e.sortOf(vT)}, vT)
+		}
+		return &TupleV{Vs: []Val{TTrue, kv, vv}}
+	}
 	it := x.val(st, fr, in.Iter).(*OpaqueV)
 	mv := it.Data["map"].(*MapV)
 	tt := in.Type().(*types.Tuple)
